@@ -1521,6 +1521,11 @@ func checkCursorLoopsAcceptTrailingEmpty(c *core.Ctx, r *core.Rule, prog *core.P
 	n := 0
 	for _, top := range core.PkgFuncs(prog.SSA, pkg) {
 		for _, fn := range core.AllFuncs(top) {
+			// per function: the read that follows a consumed delimiter is the one that has to look; a loop may also
+			// read names, whose EOF is a genuine error
+			nLoop := 0
+			looksAtEOF := false
+			var firstPos token.Pos
 			for _, call := range core.Calls(fn) {
 				if !strings.HasSuffix(core.CalleeName(call.Common()), "uri.cursor).readValue") || !inLoop(call.Block()) {
 					continue
@@ -1529,8 +1534,10 @@ func checkCursorLoopsAcceptTrailingEmpty(c *core.Ctx, r *core.Rule, prog *core.P
 				if !ok {
 					continue
 				}
-				n++
-				looksAtEOF := false
+				nLoop++
+				if firstPos == token.NoPos {
+					firstPos = call.Pos()
+				}
 				for _, ref := range *cv.Referrers() {
 					ex, ok := ref.(*ssa.Extract)
 					if !ok || !core.IsErrorType(ex.Type()) {
@@ -1548,12 +1555,16 @@ func checkCursorLoopsAcceptTrailingEmpty(c *core.Ctx, r *core.Rule, prog *core.P
 						}
 					}
 				}
-				key := "cursor-loop-eof:" + fnKeyFull(fn)
-				if looksAtEOF {
-					r.Pass(key + ": the loop distinguishes the end of the text from other errors")
-				} else {
-					r.Fail(key, c.Pos(call.Pos()), fmt.Sprintf("%s calls cursor.readValue in a loop and returns its error as it comes: an empty remainder after a consumed delimiter (the encoder's spelling of a trailing empty item or field value) makes the decoder fail with EOF on the encoder's own output", fn.Name()))
-				}
+			}
+			if nLoop == 0 {
+				continue
+			}
+			n++
+			key := "cursor-loop-eof:" + fnKeyFull(fn)
+			if looksAtEOF {
+				r.Pass(key + ": the loop distinguishes the end of the text from other errors")
+			} else {
+				r.Fail(key, c.Pos(firstPos), fmt.Sprintf("%s calls cursor.readValue in a loop and returns every error as it comes: an empty remainder after a consumed delimiter (the encoder's spelling of a trailing empty item or field value) makes the decoder fail with EOF on the encoder's own output", fn.Name()))
 			}
 		}
 	}
